@@ -68,6 +68,19 @@ PROPS["C04"] = dict(
                "Any call sequence is a composition of verified steps.",
 )
 
+# plug-in registrations (runner/reg/*.py): PROPS = {id: entry} adds new properties, PREFIXES = {id: [..]} appends harness
+# prefixes to an entry defined elsewhere (e.g. C20 collects refusal/no-panic harnesses from every family)
+import os as _os, sys as _sys
+_sys.path.insert(0, _os.path.dirname(_os.path.abspath(__file__)))
+import overlay as _overlay
+for _m in _overlay.REG:
+    for _k, _v in getattr(_m, "PROPS", {}).items():
+        PROPS[_k] = _v
+for _m in _overlay.REG:
+    for _k, _v in getattr(_m, "PREFIXES", {}).items():
+        if _k in PROPS:
+            PROPS[_k]["prefixes"] = list(PROPS[_k]["prefixes"]) + [x for x in _v if x not in PROPS[_k]["prefixes"]]
+
 _PENDING = "not yet built in this round; see DESIGN.md section 4 for the plan"
 NOT_APPLICABLE = {
     "C19": "property is about the program-counter trace of the optimised machine code; no installed engine can encode machine code or LLVM IR "
